@@ -311,7 +311,10 @@ fn one_threshold(a: &Args, shape: u32, seed: u64, t: u64, kind: u32, ctx: &mut C
 }
 
 pub fn run(a: &Args) -> Ctx {
-    let mut ctx = Ctx::new("C16", &["C16"], &a.replay_dir, &a.shard_name());
+    // `--as C03`: the same fault workload judged for C03 ("whenever a flush/sync returns Ok the files hold every
+    // update", which includes the flush that follows a failed one); only the Ok-but-not-durable findings count then
+    let as_c03 = a.get("as") == Some("C03");
+    let mut ctx = if as_c03 { Ctx::new("C03", &["C03"], &a.replay_dir, &a.shard_name()) } else { Ctx::new("C16", &["C16"], &a.replay_dir, &a.shard_name()) };
     crate::sys::ignore_sigxfsz();
     let cap = a.get_u64("grid_cap", 24) as usize;
     let mut job = 0usize;
@@ -349,7 +352,13 @@ pub fn run(a: &Args) -> Ctx {
                 if m.starts_with("HARNESS") {
                     ctx.inconclusive.push(m);
                 } else {
-                    let owners: &'static [&'static str] = if m.starts_with("FOREIGN") { &["C01"] } else { &["C16"] };
+                    let owners: &'static [&'static str] = if m.starts_with("FOREIGN") {
+                        &["C01"]
+                    } else if m.contains("returned Ok but ") || m.contains("a flush returns Ok, but ") || m.contains("a successful flush ") {
+                        &["C16", "C03"]
+                    } else {
+                        &["C16"]
+                    };
                     let st = ctx.classify(finding(owners, "fault", i, m));
                     let v = matches!(st, Stop::Violation(_));
                     ctx.record_stop(st, None);
